@@ -63,7 +63,7 @@ def classify(pid, report, eng, ops):
 
     # --- DELETE of a row that the database still sees referenced by a row the same flush deletes later / re-points
     if mon == 'fkorder' and kind == 'foreign_key_error_on_flush' and det.get('failed_sql', '').startswith('DELETE') \
-            and det.get('deleted_row_still_referenced_in_db') and det.get('referrers_modified_then_deleted') and not det.get('cycle'):
+            and det.get('deleted_row_still_referenced_in_db') and not det.get('deleted_row_had_pending_update') and not det.get('cycle'):
         return pid + '-DELETE-BEFORE-REFERRER-WRITTEN'
 
     # --- walker / read reports right after a failed call whose failure is the known cascade-cycle mechanism
